@@ -38,12 +38,18 @@ CLAIM = {
             "regenerated from the source on every run. Every rewrite (reverse any subset, n sections -> 1, n sections -> n "
             "pipes in series, merge loads, delete disabled elements, shift pressures) is additionally applied to real "
             "generated networks and the converged results are compared.",
-    "note": "Partial: clause 3 (n sections = n pipes in series) and clause 5 (disabled = absent) for branches are "
-            "monitors only (C04's reduce_eq_delete is not available); the step from equal residuals to equal converged "
-            "results rests on uniqueness of the solution (C08) and is observed by the monitors, not proved here. "
-            "Pumps, compressors, controllers and heat consumers are directional and excluded from reversal. "
+    "note": "Partial: clause 3 (n sections = n pipes in series) is proved at parameter / residual level "
+            "(series_piece_parameters, sections_eq_series), the node renumbering is observed by the monitor; clause 5 "
+            "(disabled = absent) is a theorem for const-flow rows, cites C04's reduce_eq_delete for the structural pit "
+            "columns of branches / junctions (dependency on coq/C04, coq/C06) and is a monitor otherwise; the step from equal residual systems to equal converged "
+            "results rests on uniqueness of the solution (C08; fails for pumps / compressors in a mesh, whose lift law is "
+            "not monotone - such pairs are counted, not compared) and is observed by the monitors. Thermal results of "
+            "n sections vs 1 section are not claimed (uniform temperature only). Pumps, compressors, controllers and "
+            "heat consumers are directional and excluded from reversal; pi valves are left untouched. "
             "Jacobian entry df/dm is even only if der_lambda is odd; calc_der_lambda is even (laminar term), which "
-            "changes Newton's path for negative flows, not its fixed points. "
+            "changes Newton's path for negative flows, not its fixed points. Monitor tolerances are derived: 1e-8 on p, "
+            "1e-8 + 4*sum of stalled flows on mdot (double roots), 1e-8 + 40*tol_m/min|m| on T. "
+            "Known finding: res_pipe.t_outlet_k of multi-section pipes depends on the declared orientation. "
             "Axioms: theorems over R use the Coq real-number axioms (ClassicalDedekindReals.sig_forall_dec, sig_not_dec, "
             "FunctionalExtensionality.functional_extensionality_dep) and Classical_Prop.classic (via the stdlib); the load "
             "theorems and the chain theorem are closed under the global context.",
@@ -309,6 +315,18 @@ def rewrites_for(ctx, profile, spec, rng, reverse_all=False):
     return out
 
 
+def lift_direction_differs(r0, r1):
+    for t in ("res_pump", "res_compressor"):
+        if t in r0 and t in r1:
+            a = dict(zip(r0[t]["index"], r0[t]["cols"].get("mdot_from_kg_per_s", [])))
+            b = dict(zip(r1[t]["index"], r1[t]["cols"].get("mdot_from_kg_per_s", [])))
+            for i, x in a.items():
+                y = b.get(i)
+                if x is not None and y is not None and (x > 0) != (y > 0):
+                    return True
+    return False
+
+
 HYD_ONLY = ("p_bar", "p_from_bar", "p_to_bar", "mdot_from_kg_per_s", "mdot_to_kg_per_s", "mdot_kg_per_s",
             "mdot_flow_kg_per_s")
 
@@ -338,6 +356,12 @@ def monitor_net(ctx, profile, name, spec, rng, counters, reverse_all=False):
         diffs = rw.compare(r0, r1, ex, atol=ATOL)
         if scope == "hyd":
             diffs = [x for x in diffs if x[1].split("<->")[0].split("(")[0] in HYD_ONLY]
+        if diffs and lift_direction_differs(r0, r1):
+            # pumps / compressors have a non-monotone law (no lift for reverse flow): such a network can have
+            # two solutions (circulation vs backflow), C08's uniqueness hypothesis fails and which one Newton finds
+            # depends on the description.  Not decidable by comparing results: counted, not reported.
+            ctx.count("skipped_nonunique_lift_direction_" + clause)
+            continue
         seen = set()
         for df in diffs:
             sig = classify(clause, profile, spec, df)
@@ -353,8 +377,10 @@ def monitor_net(ctx, profile, name, spec, rng, counters, reverse_all=False):
             res = ctx.violation(sig, "%s: %s.%s of row %s is %r in the original and %r in the equivalent description "
                                "(%d differing entries, |diff| bound %g)" % (clause, df[0], df[1], df[2], df[3], df[4],
                                                                              len(diffs), ATOL),
-                          {"spec": spec, "rewritten": s1, "options": kw, "clause": clause,
-                           "diffs": [list(map(str, x)) for x in diffs[:10]]})
+                          {"spec": spec, "rewritten": s1, "options": kw, "clause": clause, "scope": scope,
+                           "expect": rw.expect_to_json(ex), "diffs": [list(map(str, x)) for x in diffs[:10]],
+                           "how": "./check C09 --replay <this file>: builds both specs through the public API "
+                                  "(harness.gen.build), runs pipeflow(**options) on each and compares p / mdot / T"})
             if res == "violation":
                 counters["reported_" + clause] = counters.get("reported_" + clause, 0) + 1
                 break                      # one report per (net, rewrite); known findings do not hide others
@@ -367,6 +393,11 @@ def run(ctx):
                          "JSON. monitors: fixed corpus + generated water / gas / heat nets (tools/harness/gen.py), a case = "
                          "(net, rewrite); non-trivial = both descriptions converged and the rewritten net has finite "
                          "results")
+    ctx.assumptions.append("C09: exactness of the correspondence rests on dyadic inputs (no rounding in length*1000/n, "
+                           "zeta/n, vinterp, load sums); junction node positions are taken from the implementation's lookup")
+    ctx.assumptions.append("C09 monitors: two converged runs are compared with tolerances derived from the solver "
+                           "tolerances (see design_notes/C09.md); pairs on different branches of a pump / compressor law "
+                           "are not compared")
     for name, fn in GEN:
         try:
             ctx.gen(name, fn())
@@ -380,8 +411,8 @@ def run(ctx):
     t0 = time.time()
     rng = ctx.rng
     # ---- H-tie: exact correspondences
-    n_pipe = 150 if ctx.quick else 3000
-    n_load = 150 if ctx.quick else 3000
+    n_pipe = 150 if ctx.quick else 2000
+    n_load = 150 if ctx.quick else 2000
     pipe_specs = [gen_pipe_spec(rng) for _ in range(n_pipe)]
     load_specs = [gen_load_spec(rng) for _ in range(n_load)]
     for s in pipe_specs:
@@ -414,7 +445,7 @@ def run(ctx):
             js = [k["index"] for f, k in s2["ops"] if f == "create_junction"]
             s2["ops"].append(["create_sink", {"index": 0, "junction": js[-1], "mdot_kg_per_s": 1.0}])
         monitor_net(ctx, "water", "corr_mismatch", s2, rng, counters)
-    n_nets = 45 if ctx.quick else 900
+    n_nets = 45 if ctx.quick else 600
     if (not proved or ctx.brokens) and not ctx.violations:
         n_nets *= 2                                   # widen the search
     for k in range(n_nets):
@@ -430,12 +461,29 @@ def run(ctx):
 def replay(ctx, path):
     obj = json.load(open(path))
     rp = obj["replay"]
+    if "rewritten" not in rp:
+        print("replay: obligation-kind file, nothing to run: %s" % json.dumps(obj.get("broken", obj))[:2000])
+        return
     st0, r0 = run_spec(rp["spec"], **rp["options"])
     st1, r1 = run_spec(rp["rewritten"], **rp["options"])
-    print("original: %s, rewritten: %s" % (st0, st1))
-    if st0 == "ok" and st1 == "ok":
-        for t in sorted(r0):
-            print(t, r0[t]["cols"].get("p_bar") or r0[t]["cols"].get("mdot_from_kg_per_s") or "")
-        for t in sorted(r1):
-            print(t, r1[t]["cols"].get("p_bar") or r1[t]["cols"].get("mdot_from_kg_per_s") or "")
-        print("recorded differences:", rp.get("diffs"))
+    print("replay: original %s, rewritten %s" % (st0, st1))
+    if st0 != "ok" or st1 != "ok":
+        if st0 == "ok":
+            ctx.violation({"clause": rp.get("clause"), "exception": st1}, "rewritten description fails: %s" % st1, rp)
+        return
+    ex = rw.expect_from_json(rp.get("expect", {}))
+    diffs = rw.compare(r0, r1, ex, atol=ATOL)
+    if rp.get("scope") == "hyd":
+        diffs = [x for x in diffs if x[1].split("<->")[0].split("(")[0] in HYD_ONLY]
+    for d in diffs[:20]:
+        print("  differs: %s.%s row %s: %r vs %r" % d)
+    if diffs and lift_direction_differs(r0, r1):
+        print("replay: a pump / compressor runs forward in one description and backward in the other: the network has "
+              "two solutions (non-monotone lift law); not decidable by comparison")
+        return
+    if not diffs:
+        print("replay: the two descriptions agree on the current tree")
+    for d in diffs:
+        sig = classify(rp.get("clause"), None, rp["spec"], d)
+        if ctx.violation(sig, "%s: %s.%s of row %s: %r vs %r" % ((rp.get("clause"),) + tuple(d)), rp) == "violation":
+            break
